@@ -89,6 +89,9 @@ func encodeCSV(ctx context.Context, fp io.Writer, view *View, options option.Exp
 			return NewSystemError(err.Error())
 		}
 	}
+	if err != nil {
+		return err
+	}
 	if err = w.Flush(); err != nil {
 		return NewSystemError(err.Error())
 	}
